@@ -220,11 +220,38 @@ def run_unit(ck, unit):
             key = 'quantifier:list-split-into-several-batches'
         kf = ck.known_match(key)
         if kf:
+            excused.append(key)
             return ('known', '%s :: %s' % (key, kf['desc']))
         return ('violation', path, '%s: engine=%s reference=%s on %s' % (name, n['verdict'], SOLVER_RESULT[wv], json.dumps(docj)))
+    excused = []
     inside = z3.Not(z3.Or(*orc.excluded)) if orc.excluded else True
     ck.obligation(name, tr.uni, z3.And(inside, (v['res'] == TRUE) != (want == TRUE)), sample={'rule': name, 'tree': r['display'][:140]}, on_sat=on_sat,
                   cvc5=name.startswith('scalar'))
+    if excused:
+        # the recorded finding must not hide anything else in this obligation: wherever the engine leaves the reference
+        # it has to be on the *batched* reading of the quantifier (the recorded defect, as a semantics) instead
+        orc_b = O.Oracle(tr.uni, tr.doc)
+        orc_b.batched = True
+        want_b = orc_b.rule(rule)
+
+        def on_sat_b(model):
+            docj = tr.render_doc(model)
+            n = br.call(cmd='eval', yaml=yaml, opts=None, doc=docj, mode='flat')
+            wv = model.eval(want, model_completion=True).as_long()
+            wb = model.eval(want_b, model_completion=True).as_long()
+            path = ck.write_replay(safe(name) + '_beyond_known', {'rule': yaml, 'doc': docj, 'native': n, 'reference': SOLVER_RESULT[wv],
+                                                                  'reference_batched': SOLVER_RESULT[wb], 'tree': r['display'], 'excused_elsewhere_as': excused[0]})
+            if 'verdict' not in n:
+                return ('spurious', 'native failure %r' % (n,))
+            ck.replays_ok += 1
+            if n['verdict'] == (wv == 0) or n['verdict'] == (wb == 0):
+                return ('spurious', 'native verdict agrees with a reference (%s)' % path)
+            if reality_pins(ck, tr.uni, model):
+                return ('retry', exact_rendering_region(tr.uni), ('spurious', 'the witness depends on the unmodelled text of a number (%s)' % path))
+            return ('violation', path, '%s: engine=%s reference=%s (batched reading: %s) on %s, which the recorded finding %s does not explain' % (
+                name, n['verdict'], SOLVER_RESULT[wv], SOLVER_RESULT[wb], json.dumps(docj), excused[0]))
+        ck.obligation(name + ':beyond-known-findings', tr.uni,
+                      z3.And(inside, (v['res'] == TRUE) != (want == TRUE), (v['res'] == TRUE) != (want_b == TRUE)), on_sat=on_sat_b)
     # vacuity: the rule can match and can fail to match
     r1, _ = ck.solve(tr.uni, want == TRUE)
     r2, _ = ck.solve(tr.uni, want != TRUE)
